@@ -55,6 +55,12 @@ MutRepr(def) ==
   ELSE IF \E i \in 1..Len(def.reprs) : def.reprs[i] = "align(16)"
        THEN {InMod([def EXCEPT !.reprs = <<"C">>], "ra")}
        ELSE {InMod([def EXCEPT !.reprs = def.reprs \o <<"align(16)">>], "ra")}
+\* the argument of repr(align(N)) changed (the attribute stays): 16 -> 8 and 16 -> 32
+ReplaceRepr(rs, from, to) == [i \in 1..Len(rs) |-> IF rs[i] = from THEN to ELSE rs[i]]
+MutAlignArg(def) ==
+  IF ~def.zc \/ ~(\E i \in 1..Len(def.reprs) : def.reprs[i] = "align(16)") THEN {}
+  ELSE {InMod([def EXCEPT !.reprs = ReplaceRepr(def.reprs, "align(16)", "align(8)")], "rb"),
+        InMod([def EXCEPT !.reprs = ReplaceRepr(def.reprs, "align(16)", "align(32)")], "rc")}
 \* array length / sequence kind / tuple arity of one field changed
 MutShape(def) ==
   IF def.dk # "struct" THEN {}
@@ -77,7 +83,7 @@ CoreDefSet == {CoreDefs[i] : i \in 1..Len(CoreDefs)}
 
 NearMiss(def) ==
   MutRename(def) \cup MutSwap(def) \cup MutType(def) \cup MutCopy(def) \cup MutConstName(def)
-  \cup MutRepr(def) \cup MutShape(def) \cup MutVariant(def)
+  \cup MutRepr(def) \cup MutAlignArg(def) \cup MutShape(def) \cup MutVariant(def)
 
 ---------------------------------------------------------------------------
 (* C17: wrongly declared zero-copy definitions.  From every valid zero-copy  *)
